@@ -36,8 +36,11 @@ def run_verus(pid, unit, tier, seed, keep=False):
         for l in meta.get("lost", []):
             if pid in l["props"]:
                 out["undecided"].append({"what": "contract of %s could not be attached to the current source (%s) - its obligations are undecided" % (l["fn"], l["why"])})
-        scope_fns = sorted(fn for fn, props in meta["fn_props"].items() if pid in props)
-        scope_obl = [o for o in meta["obligations"] if pid in o["props"]]
+        # a property whose proof calls functions contracted for other properties depends on those
+        # contracts holding: their obligations are part of its scope ("include_props")
+        pids = set([pid] + unit.get("include_props", []))
+        scope_fns = sorted(fn for fn, props in meta["fn_props"].items() if pids & set(props))
+        scope_obl = [o for o in meta["obligations"] if pids & set(o["props"])]
         files = sorted(rel for rel in meta["files"] if any(fn.startswith(os.path.basename(rel) + "::") for fn in scope_fns))
         extra = []
         if tier == "quick":
@@ -74,7 +77,7 @@ def run_verus(pid, unit, tier, seed, keep=False):
             extra = [x for i, x in enumerate(extra) if not (x in pf_mods and i > 0 and extra[i - 1] == "--verify-only-module") and not (x == "--verify-only-module" and i + 1 < len(extra) and extra[i + 1] in pf_mods)]
         def _iso(spec):
             mod, pat = spec
-            return spec, engine.run_verus(s, extra=["--verify-only-module", mod, "--verify-function", pat], rlimit=unit.get("iso_rlimit", 3000), threads=1, timeout=1500)
+            return spec, engine.run_verus(s, extra=["--verify-only-module", mod, "--verify-function", pat], rlimit=unit.get("iso_rlimit", 1400), threads=1, timeout=1500)
         with ThreadPoolExecutor(max_workers=8) as ex:
             fut_main = ex.submit(engine.run_verus, s, extra, unit.get("rlimit", 800), 8)
             futs = [ex.submit(_iso, i) for i in iso]
@@ -209,3 +212,56 @@ def run_dfa(pid, unit, tier, seed, keep=False):
         shutil.rmtree(s, ignore_errors=True)
         if not keep:
             shutil.rmtree(w, ignore_errors=True)
+
+
+def _kani_counterexample(out):
+    """extract concrete values printed by `--concrete-playback=print` (list of byte lists)"""
+    vals = []
+    for m in re.finditer(r"//\s*(\d+)\s*\n\s*vec!\[([0-9, ]+)\]", out):
+        vals.append([int(x) for x in m.group(2).split(",") if x.strip()])
+    return vals
+
+
+def run_kani(pid, unit, tier, seed, keep=False):
+    """bounded stand-ins: every harness is exhaustive up to the bound in its name; never counted as proved"""
+    from concurrent.futures import ThreadPoolExecutor
+    t0 = time.time()
+    out = {"kind": "kani", "name": unit.get("name", "bounded Kani harnesses"), "backend": "Kani 0.68 / CBMC 6.11",
+           "violations": [], "undecided": [], "samples": [], "functions": [], "bounded": [], "obligations": 0, "discharged": 0}
+    hs = [h for h in unit["harnesses"] if tier == "thorough" or not h.get("thorough_only")]
+    s = engine.scratch_root()
+    try:
+        engine.copy_repo(s)
+        k = engine.prepare_kani(s)
+        if not hs:
+            return out
+        # first harness compiles the crate; the others reuse the build
+        results = [engine.run_kani(k, hs[0]["name"], timeout=hs[0].get("timeout", 900), extra=["-Z", "concrete-playback", "--concrete-playback=print"])]
+        with ThreadPoolExecutor(max_workers=unit.get("jobs", 4)) as ex:
+            results += list(ex.map(lambda h: engine.run_kani(k, h["name"], timeout=h.get("timeout", 900), extra=["-Z", "concrete-playback", "--concrete-playback=print"]), hs[1:]))
+        out["checker_cmd"] = results[0]["cmd"]
+        for h, r in zip(hs, results):
+            rec = {"harness": h["name"], "bound": h["bound"], "bounded": True, "wall_s": round(r["wall"], 1)}
+            ok = r["rc"] == 0 and "VERIFICATION:- SUCCESSFUL" in r["out"]
+            failed = "VERIFICATION:- FAILED" in r["out"]
+            if ok:
+                rec["result"] = "no violation up to the bound"
+                m = re.search(r"\*\* 0 of (\d+) failed", r["out"])
+                rec["cbmc_checks"] = int(m.group(1)) if m else None
+            elif failed:
+                rec["result"] = "FAILED"
+                fl = re.findall(r"Failed Checks: (.*)", r["out"])
+                vals = _kani_counterexample(r["out"])
+                out["violations"].append({"obligation": "kani::%s (bounded: %s)" % (h["name"], h["bound"]), "message": "; ".join(fl[:4]) or "assertion failed in the harness",
+                                          "kind": "bounded", "function": h["name"], "verifier_output": r["out"][-4000:],
+                                          "input": {"op": "kani-playback", "harness": h["name"], "concrete_values": vals[:24]} if vals else None})
+            else:
+                rec["result"] = "undecided (timeout / tool error)"
+                out["undecided"].append({"what": "kani harness %s did not finish (rc=%s)" % (h["name"], r["rc"])})
+            out["bounded"].append(rec)
+        out["trusted_base"] = ["Kani/CBMC (bounded model checking up to the stated input length; unwinding assertions on)"]
+        out["wall_s"] = round(time.time() - t0, 1)
+        return out
+    finally:
+        if not keep:
+            shutil.rmtree(s, ignore_errors=True)
